@@ -202,8 +202,8 @@ def updatePosition (s : StaticSound α) : Except Fault (StaticSound α) :=
       if !t.playing && s2.resampler.empty then .ok { s2 with core := s2.core.markStopped }
       else .ok s2
 
-/-- mirrors: StaticSound::new -/
-def new (d : StaticSoundData α) : Except Fault (StaticSound α) :=
+/-- mirrors: StaticSound::new up to (not including) the three priming `update_position` calls -/
+def init (d : StaticSoundData α) : Except Fault (StaticSound α) :=
   match numFrames d.frames.size d.slice with
   | .error f => .error f
   | .ok n =>
@@ -212,26 +212,31 @@ def new (d : StaticSoundData α) : Except Fault (StaticSound α) :=
     | .error f => .error f
     | .ok transport =>
       let idx := transport.position
-      let s : StaticSound α :=
-        { cmds := {}
-          sampleRate := d.sampleRate
-          frames := d.frames
-          slice := d.slice
-          reverse := d.settings.reverse
-          core := SoundCore.new d.settings.startTime d.settings.fadeInTween
-          resampler := Resampler.new idx
-          transport := transport
-          frac := (0.0 : α)
-          volume := Parameter.new d.settings.volume Psm.identityDb
-          playbackRate := Parameter.new d.settings.playbackRate (1.0 : α)
-          panning := Parameter.new d.settings.panning (0.0 : α)
-          sharedPosition := (KOps.ofNat idx : α) / (KOps.ofNat d.sampleRate : α) }
-      -- fill the resample buffer with 3 samples so playback can start immediately
-      match s.updatePosition with
+      .ok { cmds := {}
+            sampleRate := d.sampleRate
+            frames := d.frames
+            slice := d.slice
+            reverse := d.settings.reverse
+            core := SoundCore.new d.settings.startTime d.settings.fadeInTween
+            resampler := Resampler.new idx
+            transport := transport
+            frac := (0.0 : α)
+            volume := Parameter.new d.settings.volume Psm.identityDb
+            playbackRate := Parameter.new d.settings.playbackRate (1.0 : α)
+            panning := Parameter.new d.settings.panning (0.0 : α)
+            sharedPosition := (KOps.ofNat idx : α) / (KOps.ofNat d.sampleRate : α) }
+
+/-- mirrors: StaticSound::new — "fill the resample buffer with 3 samples so playback can start
+    immediately" -/
+def new (d : StaticSoundData α) : Except Fault (StaticSound α) :=
+  match init d with
+  | .error f => .error f
+  | .ok s =>
+    match s.updatePosition with
+    | .error f => .error f
+    | .ok s => match s.updatePosition with
       | .error f => .error f
-      | .ok s => match s.updatePosition with
-        | .error f => .error f
-        | .ok s => s.updatePosition
+      | .ok s => s.updatePosition
 
 /-- mirrors: StaticSound::seek_to_index -/
 def seekToIndex (s : StaticSound α) (index : Nat) : Except Fault (StaticSound α) :=
